@@ -8,6 +8,8 @@ import (
 	"os"
 	"path/filepath"
 	"strings"
+	"sync/atomic"
+	"time"
 )
 
 const coqHeader = `From stdpp Require Import gmap.
@@ -38,23 +40,24 @@ var profiles = map[string]Profile{
 		AbortPct: 10, FilterPct: 6, FailInsPct: 4, MaxStmts: 5},
 	// string columns over a small alphabet with a sorted index from the start, frequent Ascend
 	"sorted": {Name: "sorted", Txns: 16, KeyedPct: 10, SeedPct: 30, SchemaPct: 10, RestorePct: 5, ReplicaPct: 0,
-		AbortPct: 10, FilterPct: 30, FailInsPct: 3, MaxStmts: 6, Kinds: []Kind{KStr, KStrCat, KEnum, KStr, KInt16}, ForceSorted: true},
+		AbortPct: 10, FilterPct: 30, FailInsPct: 3, MaxStmts: 6, Kinds: []Kind{KStrCat, KStrMin, KStr, KEnum, KStrCat, KInt16}, ForceSorted: true},
 	"alloc": {Name: "alloc", Txns: 22, KeyedPct: 15, SeedPct: 35, NestedPct: 25, DensePct: 3, SchemaPct: 4, AbortPct: 25, FilterPct: 10,
 		FailInsPct: 12, MaxStmts: 9},
 }
 
 type runSummary struct {
-	Engine  string            `json:"engine"`
-	Profile string            `json:"profile"`
-	Seed    uint64            `json:"seed"`
-	Cases   int               `json:"cases"`
-	Shards  []string          `json:"shards"`
-	Stats   *Stats            `json:"stats"`
-	Notes   map[string][]string `json:"notes"`
-	Panics  map[string]string `json:"panics"`
-	Samples []string          `json:"samples"`
-	Features []map[string]int `json:"features"` // per case: what the history contained
-	Hashes  []string          `json:"hashes"`
+	Engine   string              `json:"engine"`
+	Profile  string              `json:"profile"`
+	Seed     uint64              `json:"seed"`
+	Cases    int                 `json:"cases"`
+	Shards   []string            `json:"shards"`
+	Stuck    map[string]string   `json:"stuck"`
+	Stats    *Stats              `json:"stats"`
+	Notes    map[string][]string `json:"notes"`
+	Panics   map[string]string   `json:"panics"`
+	Samples  []string            `json:"samples"`
+	Features []map[string]int    `json:"features"` // per case: what the history contained
+	Hashes   []string            `json:"hashes"`
 }
 
 // snapshotCounts flattens the counters a per-case feature vector is computed from
@@ -100,7 +103,7 @@ func cmdHist(args []string) {
 	}
 	os.MkdirAll(*out, 0o755)
 	stats := newStats()
-	sum := runSummary{Engine: "hist", Profile: *prof, Seed: *seed, Stats: stats, Notes: map[string][]string{}, Panics: map[string]string{}}
+	sum := runSummary{Engine: "hist", Profile: *prof, Seed: *seed, Stats: stats, Notes: map[string][]string{}, Panics: map[string]string{}, Stuck: map[string]string{}}
 	lo, hi := *first, *first+*n
 	if *only >= 0 {
 		lo, hi = *only, *only+1
@@ -128,7 +131,13 @@ func cmdHist(args []string) {
 	}
 	for i := lo; i < hi; i++ {
 		before := snapshotCounts(stats)
-		text, notes, pan := runCase(*seed, i, p, stats)
+		if len(sum.Stuck) >= 2 {
+			break // every stuck case costs the whole watchdog period; two are enough to report
+		}
+		text, notes, pan, stuck := runCaseWatched(*seed, i, p, stats, 60*time.Second)
+		if stuck != "" {
+			sum.Stuck[fmt.Sprint(i)] = stuck
+		}
 		after := snapshotCounts(stats)
 		feat := map[string]int{"case": i}
 		for k, v := range after {
@@ -154,9 +163,40 @@ func cmdHist(args []string) {
 		}
 	}
 	flush()
-	sum.Cases = hi - lo
+	sum.Cases = len(sum.Hashes)
 	b, _ := json.MarshalIndent(sum, "", " ")
 	os.WriteFile(filepath.Join(*out, "summary.json"), b, 0o644)
+}
+
+// runCaseWatched runs one history under a watchdog: an operation of the library that never returns
+// (a lock that is never released) must not hang the check; the case is reported as stuck with the
+// steps recorded so far, and its goroutine is abandoned together with its collection.
+func runCaseWatched(seed uint64, idx int, prof Profile, stats *Stats, limit time.Duration) (text string, notes []string, pan string, stuck string) {
+	type res struct {
+		text  string
+		notes []string
+		pan   string
+	}
+	ch := make(chan res, 1)
+	var cur atomic.Pointer[World]
+	go func() {
+		t, n, p := runCaseHooked(seed, idx, prof, stats, &cur)
+		ch <- res{t, n, p}
+	}()
+	select {
+	case r := <-ch:
+		return r.text, r.notes, r.pan, ""
+	case <-time.After(limit):
+		w := cur.Load()
+		steps, last := []string{}, "before the first step"
+		if w != nil {
+			w.stepMu.Lock()
+			steps = append(steps, w.steps...)
+			last = w.doing
+			w.stepMu.Unlock()
+		}
+		return "[" + strings.Join(steps, ";\n  ") + "]", nil, "", fmt.Sprintf("no progress for %v while: %s (after %d recorded steps)", limit, last, len(steps))
+	}
 }
 
 func main() {
